@@ -1,3 +1,4 @@
+import Fpdec.Kernels.Swar
 import Fpdec.Lemmas.Parse
 import Fpdec.Props.C06_Sites
 
@@ -57,5 +58,14 @@ theorem from_str_never_panics (prof : Profile) (s : List Nat) (hb : ∀ c ∈ s,
 /-! ### non-vacuity: former defects D1–D5 are now theorems' instances -/
 example : Spec.parseSpec [49, 101, 48, 48, 49] = .ok 10 0 ∧ fromStr Profile.dev [49, 101, 48, 48, 49] = .ok (.ok ⟨10, 0⟩) := by
   decide   -- "1e001"
+
+/-! ### translated kernels
+The Lean definitions `Gen.K.*` are regenerated from the Rust source on every run by `tools/fpkernels.py` (expression-level
+translation).  These theorems tie them to the hand-written model the property theorems above are about: a change of the Rust
+kernel that changes its translation breaks them. -/
+theorem kernel_chunk_contains_8_digits (prof : Profile) (c : Nat) :
+    Gen.K.chunk_contains_8_digits prof c = .ok (chunkContains8Digits c) := Kernels.chunk_contains_8_digits_eq prof c
+theorem kernel_chunk_to_u64 (prof : Profile) (c : Nat) :
+    Gen.K.chunk_to_u64 prof c = .ok (chunkToU64 c) := Kernels.chunk_to_u64_eq prof c
 
 end Fpdec.Props.C06
